@@ -277,8 +277,14 @@ def neutralized(pm):
     """the same module with the actual parameters of every NESTED instantiation replaced by NULL: what is left of the
     specification's complaints there does not depend on them"""
     def fix(t):
-        if t[0] == 'P':
+        k = t[0]
+        if k == 'P':
             return ('P', t[1], [('P', a[1], [N] * len(a[2])) if a[0] == 'P' else a for a in t[2]])
+        if k in "STC":
+            f = lambda l: [(c[0], c[1], c[2], fix(c[3])) for c in l]
+            return (k, f(t[1]), None if t[2] is None else f(t[2]), f(t[3]))
+        if k == 'Q':
+            return ('Q', fix(t[1]))
         return t
     return {"tagging": pm["tagging"], "items": [it if it[0] == 'tmpl' else (it[0], it[1], it[2], fix(it[3])) for it in pm["items"]]}
 
@@ -382,7 +388,7 @@ def gen_cases(rng, tier):
                 for tg in "EIA":
                     extra.append(("pm:%s:two:%s:%s:%s" % (tk, lab, order, tg), build(tg, tk, "two", a1, a2, order)))
     extra = rng.shuffle(extra)
-    room = 300 if tier == "quick" else 6000
+    room = 300 if tier == "quick" else 3000
     # round-robin over (shape/site, relation) so that a small budget still meets every relation
     by = {}
     for lab, pm in extra:
